@@ -419,7 +419,8 @@ def composition(ctx, r, F):
                 got_parts.append((part, "wrong callee " + m["fn"]))
             else:
                 got_parts.append(part)
-        if sorted(map(str, got_parts)) != sorted(want_parts) or (mode == "NoLength" and zero != 1) or (mode == "Default" and zero != 0):
+        # (the NoLength sum is the three parts, with or without an explicit `+ 0` for the absent length term)
+        if sorted(map(str, got_parts)) != sorted(want_parts) or (mode == "NoLength" and zero > 1) or (mode == "Default" and zero != 0):
             ok = False
             msgs.append("mode %s: terms %s (+%d literal zero); reference %s" % (mode, got_parts, zero, want_parts))
     if sorted(names.get(v, v) for v in res) != ["Default", "NoLength"]:
